@@ -280,9 +280,15 @@ struct Program {
             if (storm) {
                 int k = (int) rng.range(0, 6);
                 for (int i = 0; i < k && !gCaseFailed; ++i) submit();
-                unsigned how = (unsigned) rng.below(3);
+                unsigned how = (unsigned) rng.below(5);
                 if (how == 1 && k) { while (gFinishedEvents.load() == 0 && gRunningNow.load() == 0 && rng.below(2000)) sched_yield(); }
                 else if (how == 2 && k) drain();
+                else if (how >= 3 && k) {
+                    // clear() while the workers are busy taking tasks off the same queue
+                    if (how == 4) sched_yield();
+                    clear();
+                    if (rng.chance(500)) continue;
+                }
                 if (!gCaseFailed) stop(true);
                 continue;
             }
